@@ -650,6 +650,18 @@ def decode(raw):
         return c01._to_bytes(pyben.loads(raw))
 
 
+def cli_variant(v):
+    """2 | 3 | "3-align" | "3-config" -> (meta version, how): plain, `--align`, or `align = true` in a configuration file"""
+    ver, _, how = str(v).partition("-")
+    return ver, how
+
+
+def cli_label(v):
+    ver, how = cli_variant(v)
+    return {"": f"cli --meta-version {ver}", "align": f"cli --align --meta-version {ver}",
+            "config": f"cli --config (align = true) --meta-version {ver}"}[how]
+
+
 def cli_create(version, root, out, pl, opts):
     core.use_repo_in_process()
     from torrentfile import utils
@@ -657,7 +669,15 @@ def cli_create(version, root, out, pl, opts):
     cache = getattr(utils.filelist_total, "cache", None)
     if cache is not None:
         cache.clear()
+    version, how = cli_variant(version)
     argv = ["create", root, "--meta-version", str(version), "--piece-length", str(pl), "-o", out, "--prog", "0"]
+    if how == "align":          # documented as an option of v1 metafiles, accepted for every version: it must not change the others
+        argv += ["--align"]
+    elif how == "config":
+        ini = out + ".ini"
+        with open(ini, "w") as fd:
+            fd.write("[config]\nalign = true\n")
+        argv += ["--config", "--config-path", ini]
     if opts.get("comment"):
         argv += ["--comment", opts["comment"]]
     if opts.get("source"):
@@ -674,42 +694,85 @@ def cli_create(version, root, out, pl, opts):
     return oracle.read(out)
 
 
-KIND_OF_CLI = {2: "cli --meta-version 2", 3: "cli --meta-version 3"}
+KIND_OF_CLI = {v: cli_label(v) for v in (2, 3, "2-align", "3-align", "2-config", "3-config")}
+# variants of a class-based creator on one tree (label suffixes): the `align` option (an option of v1 metafiles that every
+# creator accepts: library keyword, --align, `align = true` in the configuration file) and the legacy pattern of the library:
+# construct (assembles) -> write() -> the PUBLIC assemble() again on the same object -> write()
+ALIGN = " +align"
+AGAIN = " assemble() again"
+CHANGED = " assemble() again after the payload changed"
+
+
+def base_kind(label):
+    """the creator (key of trees.CREATORS) or command line behind a label of case['metas']"""
+    for suffix in (ALIGN, AGAIN, CHANGED):
+        if label.endswith(suffix):
+            return label[:-len(suffix)]
+    return label
+
+
+def _create(metas, label, fn):
+    try:
+        metas[label] = decode(fn())
+    except (Exception, SystemExit) as e:  # noqa  (argparse exits with SystemExit)
+        metas[label] = e
 
 
 def build_case(tmp, salt, i, kinds, cli_versions):
-    """write tree number i and run the creators; returns dict(pl, tree, root, single, metas{kind: decoded|Exception}, ...)"""
+    """write tree number i and run the creators; returns dict(pl, tree, root, single, metas{label: decoded|Exception}, ...).
+       Every creator of `kinds` runs plain, with align=True and re-assembled on the unchanged tree; case['changed'] is a second
+       case on a copy of the payload: the creators are constructed, the payload changes (trees.mutate_tree), assemble() is called
+       again and write(): judged -- like a fresh create, which is run next to it -- against the copy as it is on disk then"""
     pl, tree, empty_dirs, opts, base = gen_case(salt, i)
     single = list(tree) == [()]
-    root = os.path.join(tmp, f"c{i}", "payload.bin" if single else "payload")
+    name = "payload.bin" if single else "payload"
+    root = os.path.join(tmp, f"c{i}", name)
     write_case(root, tree, empty_dirs)
     metas = {}
     for kind in kinds:
-        out = os.path.join(tmp, f"c{i}", kind + ".torrent")
-        try:
-            metas[kind] = decode(trees.create(kind, root, out, pl, **opts))
-        except Exception as e:  # noqa
-            metas[kind] = e
+        out = os.path.join(tmp, f"c{i}", kind)
+        _create(metas, kind, lambda: trees.create(kind, root, out + ".torrent", pl, **opts))
+        _create(metas, kind + ALIGN, lambda: trees.create(kind, root, out + "-align.torrent", pl, align=True, **opts))
+        _create(metas, kind + AGAIN, lambda: trees.create(kind, root, out + "-again.torrent", pl, reassemble=True, **opts))
     for v in cli_versions:
         out = os.path.join(tmp, f"c{i}", f"cli{v}.torrent")
-        try:
-            metas[KIND_OF_CLI[v]] = decode(cli_create(v, root, out, pl, opts))
-        except BaseException as e:  # noqa  (argparse exits with SystemExit)
-            metas[KIND_OF_CLI[v]] = e
+        _create(metas, cli_label(v), lambda: cli_create(v, root, out, pl, opts))
     disk = oracle.walk_tree(root)
     order = [comps for comps, _ in disk]
     classes = classify_tree(tree, pl, empty_dirs, order if not single else [], base)
-    return {"pl": pl, "tree": tree, "root": root, "single": single, "metas": metas, "opts": opts,
+    case = {"pl": pl, "tree": tree, "root": root, "single": single, "metas": metas, "opts": opts,
             "disk": disk, "classes": classes, "empty_dirs": empty_dirs, "i": i, "salt": salt,
-            "kinds": list(kinds), "cli_versions": list(cli_versions)}
+            "kinds": list(kinds), "cli_versions": list(cli_versions), "changed": None}
+    # the payload changes between construction and the second assemble()
+    rng = random.Random(f"{salt}:e2e-change:{i}")
+    new, how = trees.mutate_tree(rng, tree, pl)
+    root2 = os.path.join(tmp, f"c{i}", "changed", name)
+    metas2 = {}
+    for kind in kinds:
+        write_case(root2, tree, empty_dirs)
+        if new != tree:
+            trees.rewrite_tree(root2, new, tree)       # back to the state at construction for the next creator
+        out = os.path.join(tmp, f"c{i}", "changed", kind)
+        _create(metas2, kind + CHANGED, lambda: trees.create(kind, root2, out + "-again.torrent", pl,
+                                                             reassemble=lambda: trees.rewrite_tree(root2, tree, new), **opts))
+        if isinstance(metas2[kind + CHANGED], BaseException):
+            trees.rewrite_tree(root2, tree, new)
+        _create(metas2, kind, lambda: trees.create(kind, root2, out + ".torrent", pl, **opts))
+    disk2 = oracle.walk_tree(root2)
+    case["changed"] = dict(case, tree=new, root=root2, metas=metas2, disk=disk2, changed=None, change=how, tree_at_construction=tree,
+                           classes=classify_tree(new, pl, empty_dirs, [c for c, _ in disk2] if not single else [], set()))
+    return case
 
 
 def case_input(case, kind):
-    # the tree, its contents, the piece length and the options are functions of (salt, index): gen_case
-    return {"kind": "e2e", "creator": kind, "salt": case["salt"], "index": case["i"], "piece_length": case["pl"],
-            "tree": trees.tree_summary(case["tree"]), "empty_dirs": ["/".join(d) for d in case["empty_dirs"]],
-            "options": case["opts"], "creators_run": case["kinds"], "cli_versions": case["cli_versions"],
-            "case": f"e2e:{case['salt']}:{case['i']}:{kind}", "ast_changed": case.get("ast_changed", [])}
+    # the tree, its contents, the piece length, the options and the change of the payload are functions of (salt, index): gen_case
+    inp = {"kind": "e2e", "creator": kind, "salt": case["salt"], "index": case["i"], "piece_length": case["pl"],
+           "tree": trees.tree_summary(case["tree"]), "empty_dirs": ["/".join(d) for d in case["empty_dirs"]],
+           "options": case["opts"], "creators_run": case["kinds"], "cli_versions": case["cli_versions"],
+           "case": f"e2e:{case['salt']}:{case['i']}:{kind}", "ast_changed": case.get("ast_changed", [])}
+    if case.get("change"):
+        inp.update(reassemble="changed", change=case["change"], tree_at_construction=trees.tree_summary(case["tree_at_construction"]))
+    return inp
 
 
 # ------------------------------------------------------------------------------ C02 on one metafile
